@@ -537,6 +537,8 @@ pub struct ProxyNode {
 
 pub struct Pending {
     pub id: u64,
+    /// how the command reached the stand-in: "conn:<proxy>" (a proxy's backend connection) or "client:<proxy>"
+    pub via: String,
     pub node: String,
     pub cmd: Vec<Vec<u8>>,
     pub release: futures::channel::oneshot::Sender<()>,
@@ -652,10 +654,14 @@ impl Net {
 
     /// Execute one command on a stand-in (after passing the gate when gating is on).
     pub async fn redis_exec(&self, node: &str, cmd: Vec<Vec<u8>>) -> RespVec {
+        self.redis_exec_via(node, cmd, "").await
+    }
+
+    pub async fn redis_exec_via(&self, node: &str, cmd: Vec<Vec<u8>>, via: &str) -> RespVec {
         if self.inner.gated.load(Ordering::SeqCst) {
             let (tx, rx) = futures::channel::oneshot::channel();
             let id = self.inner.next_id.fetch_add(1, Ordering::SeqCst);
-            self.inner.pending.lock().push(Pending { id, node: node.to_string(), cmd: cmd.clone(), release: tx });
+            self.inner.pending.lock().push(Pending { id, via: via.to_string(), node: node.to_string(), cmd: cmd.clone(), release: tx });
             self.inner.pending_notify.notify_one();
             let _ = rx.await;
         }
@@ -712,8 +718,12 @@ impl Net {
 
     /// route a command by address: stand-in or proxy
     pub async fn exec_at(&self, addr: &str, cmd: Vec<Vec<u8>>) -> Result<RespVec, ()> {
+        self.exec_at_via(addr, cmd, "").await
+    }
+
+    pub async fn exec_at_via(&self, addr: &str, cmd: Vec<Vec<u8>>, via: &str) -> Result<RespVec, ()> {
         if self.is_redis(addr) {
-            Ok(self.redis_exec(addr, cmd).await)
+            Ok(self.redis_exec_via(addr, cmd, via).await)
         } else if self.inner.proxies.lock().contains_key(addr) {
             if self.inner.down.lock().contains(addr) {
                 return Err(());
@@ -824,6 +834,7 @@ impl ConnFactory for NetConnFactory {
     fn create_conn(&self, addr: SocketAddr) -> Pin<Box<dyn Future<Output = CreateConnResult<Self::Pkt>> + Send>> {
         let net = self.net.clone();
         let target = addr.to_string();
+        let self_from = self.from.clone();
         Box::pin(async move {
             let known = net.is_redis(&target) || net.inner.proxies.lock().contains_key(&target);
             if !known || net.inner.down.lock().contains(&target) {
@@ -832,11 +843,12 @@ impl ConnFactory for NetConnFactory {
             let (req_tx, mut req_rx) = mpsc::unbounded::<RespPacket>();
             let (rep_tx, rep_rx) = mpsc::unbounded::<Result<RespPacket, BackendError>>();
             let net2 = net.clone();
+            let via = format!("conn:{}", self_from);
             tokio::spawn(async move {
                 // one connection = strictly sequential request/reply processing
                 while let Some(pkt) = req_rx.next().await {
                     let reply = match packet_to_cmd(&pkt) {
-                        Some(cmd) => match net2.exec_at(&target, cmd).await {
+                        Some(cmd) => match net2.exec_at_via(&target, cmd, &via).await {
                             Ok(r) => r,
                             Err(()) => {
                                 let _ = rep_tx.unbounded_send(Err(BackendError::Canceled));
@@ -916,7 +928,7 @@ impl RedisClient for NetClient {
                             return Err(io_err());
                         }
                     }
-                    match net.exec_at(&target, cmd.clone()).await {
+                    match net.exec_at_via(&target, cmd.clone(), &format!("client:{}", from)).await {
                         Ok(r) => {
                             let mut r = r;
                             if fault == "dup" {
